@@ -26,6 +26,18 @@ Theorem C20_extract_build_sha256 : forall (l : list (bytes * bool)) t bits hashe
 Proof. exact extract_mb_build. Qed.
 Print Assumptions C20_extract_build_sha256.
 
+(* byte level: the serialized merkle block (Bitcoin's builder, flag bits packed into bytes, wire layout)
+   goes through NewMerkleBlockFromBuffer + ExtractMatches; trailing bytes are ignored *)
+Theorem C20_run_proof_build : forall (header : bytes) (l : list (bytes * bool)) t bits hashes rest,
+  l <> [] -> lenL l <= max_txs -> tree_of bytes l = Some t -> sib_ok bytes node_hash t ->
+  build bytes node_hash l = Some (bits, hashes) ->
+  length header = 80%nat -> Forall (fun h => length h = 32%nat) hashes ->
+  lenN (flags_of_bits bits) <= wire_max_flags ->
+  let m := mk_mb header (lenL l) hashes (flags_of_bits bits) in
+  run_proof (ser_merkle_block m ++ rest) = POk m (thash bytes node_hash t) (matched bytes l).
+Proof. exact run_proof_build. Qed.
+Print Assumptions C20_run_proof_build.
+
 (* the tree hash is the block's merkle root computed level by level *)
 Theorem C20_tree_hash_is_merkle_root : forall (A : Type) (H : A -> A -> A) (l : list (A * bool)) t,
   l <> [] -> tree_of A l = Some t -> merkle_root A H (map fst l) = Some (thash A H t).
@@ -115,21 +127,10 @@ Theorem C20_pegin_flag_on_wire : forall hash idx wit,
 Proof. exact pegin_input_flag. Qed.
 Print Assumptions C20_pegin_flag_on_wire.
 
-(* outputs sum to the pegged amount whenever the fee does not exceed it (_partial: see the refutation) *)
-Theorem C20_claim_outputs_sum_partial : forall asset genesis cs proof bv fee_of t,
+(* the outputs of every accepted claim sum to the pegged amount *)
+Theorem C20_claim_outputs_sum : forall asset genesis cs proof bv fee_of t,
   claim asset genesis cs proof bv fee_of = PgOk t ->
   exists input amount,
-    create_pegin_input asset genesis cs proof bv = PgOk (input, amount) /\
-    (amount < two64 -> fee_of (vsize (claim_dummy input asset cs amount)) <= amount -> outs_sum t = amount).
+    create_pegin_input asset genesis cs proof bv = PgOk (input, amount) /\ outs_sum t = amount.
 Proof. exact claim_outputs_sum. Qed.
-Print Assumptions C20_claim_outputs_sum_partial.
-
-(* fee > amount: uint64 subtraction wraps, the claim is still returned, outputs sum to amount + 2^64 *)
-Theorem C20_claim_outputs_sum_refuted :
-  exists asset genesis cs proof bv fee_of t input amount,
-    claim asset genesis cs proof bv fee_of = PgOk t /\
-    create_pegin_input asset genesis cs proof bv = PgOk (input, amount) /\
-    amount < fee_of (vsize (claim_dummy input asset cs amount)) /\
-    outs_sum t <> amount.
-Proof. exact claim_outputs_sum_refuted. Qed.
-Print Assumptions C20_claim_outputs_sum_refuted.
+Print Assumptions C20_claim_outputs_sum.
